@@ -414,8 +414,8 @@ class Exec:
         op = a['op']
         self._quiet_now = False
         n_reqs = len(self.world.reqs)
-        if op in ('poll', 'post', 'upg_connect', 'ws_send', 'ws_close', 'ws_fail', 'pong',
-                  'request') and getattr(self.sess(a.get('s')), 'gone_at_accept', False):
+        if op in ('poll', 'post', 'upg_connect', 'ws_send', 'ws_close', 'ws_fail', 'ws_soft_fail',
+                  'pong', 'request') and getattr(self.sess(a.get('s')), 'gone_at_accept', False):
             pass        # a client that was gone before its connection was established does nothing
         else:
             getattr(self, 'op_' + op)(a)
@@ -697,7 +697,16 @@ class Exec:
         if conn is None:
             return
         self.world.ws_fail_next_send(conn)
+        if a.get('exc'):
+            conn.fail_exc = a['exc']
         s.soft_faults = getattr(s, 'soft_faults', []) + [self.now]
+        if a.get('send') is not None:
+            # ... and the application sends right away: this is the write that fails
+            self.op_app_send({'s': a['s'], 'data': a['send'], 'settle': a.get('settle', True)})
+            if a.get('then_close'):
+                # ... and then the client closes its end
+                self.settle()
+                self.op_ws_close({'s': a['s'], 'sock': 'main', 'settle': True})
 
     def op_pong(self, a):
         s = self.sess(a['s'])
@@ -1119,9 +1128,15 @@ class Drawer:
                                        '2"probe"' + ' ' * 300, '2"probe" ', '2 probe']))
         else:
             frame = good
-            if d(st.integers(0, 19)) == 0:
-                # other spellings of the same packets
-                frame = '2"probe"' if n == 0 else d(st.sampled_from(['5x', '5{"a":1}']))
+            if d(st.integers(0, 99)) < self.profile.get('probe_spellings_pct', 5):
+                # other spellings of the same packets; with a small size limit also the spelling
+                # that is a valid probe but too long
+                limit = self.ex.config.get('max_http_buffer_size', 1000000)
+                if n == 0:
+                    frame = d(st.sampled_from(['2"probe"', '2"probe"' + ' ' * (limit + 10)
+                                               if limit <= 1000 else '2"probe" ']))
+                else:
+                    frame = d(st.sampled_from(['5x', '5{"a":1}']))
         return {'op': 'ws_send', 's': i, 'sock': 'upg', 'frame': rm.tag(frame)}
 
     def a_ws_send(self):
@@ -1151,7 +1166,15 @@ class Drawer:
         i = self.session_index()
         if self.ex.sessions[i].main_ws is None:
             return None
-        return {'op': 'ws_soft_fail', 's': i}
+        a = {'op': 'ws_soft_fail', 's': i}
+        if self.draw(st.integers(0, 1)) == 0:
+            a['exc'] = self.draw(st.sampled_from(['RuntimeError', 'Exception']))
+        if self.draw(st.integers(0, 2)) > 0:
+            self.ex.seq += 1
+            a['send'] = rm.tag('S%d.%d~' % (self.ex.sessions[i].ord, self.ex.seq))
+            if self.draw(st.integers(0, 2)) == 0:
+                a['then_close'] = True
+        return a
 
     def a_ws_close(self):
         return self._sock_action('ws_close')
